@@ -239,6 +239,8 @@ pub struct RefStoreInner {
     pub yields: usize,
     /// bumps on every mutation (for "no partial write" checks)
     pub version: u64,
+    /// answer a lookup that matches nothing with Ok(vec![]) instead of NoCredentials (both are within the contract)
+    pub empty_ok: bool,
 }
 
 /// Reference credential store with the documented contract semantics:
@@ -248,7 +250,7 @@ pub struct RefStore(pub Arc<Mutex<RefStoreInner>>);
 
 impl RefStore {
     pub fn new(disc: Disc) -> Self {
-        RefStore(Arc::new(Mutex::new(RefStoreInner { creds: vec![], log: vec![], disc, faults: BTreeMap::new(), fallible_calls: 0, yields: 0, version: 0 })))
+        RefStore(Arc::new(Mutex::new(RefStoreInner { creds: vec![], log: vec![], disc, faults: BTreeMap::new(), fallible_calls: 0, yields: 0, version: 0, empty_ok: false })))
     }
     pub fn with(disc: Disc, creds: Vec<Passkey>) -> Self {
         let s = Self::new(disc);
@@ -269,6 +271,15 @@ impl RefStore {
         let mut g = self.0.lock().unwrap();
         g.faults = f;
         g.fallible_calls = 0;
+    }
+    pub fn set_empty_ok(&self, on: bool) {
+        self.0.lock().unwrap().empty_ok = on;
+    }
+    /// put a credential in front of all others (it becomes the first the store lists)
+    pub fn prepend(&self, pk: Passkey) {
+        let mut g = self.0.lock().unwrap();
+        g.version += 1;
+        g.creds.insert(0, pk);
     }
     pub fn set_disc(&self, d: Disc) {
         self.0.lock().unwrap().disc = d;
@@ -307,7 +318,7 @@ impl CredentialStore for RefStore {
         let found: Vec<Passkey> = contract_find(&g.creds, idv.as_deref(), rp_id).into_iter().cloned().collect();
         let ret_ids = found.iter().map(|c| c.credential_id.to_vec()).collect();
         g.log.push(StoreCall::Find { ids: idv, rp_id: rp_id.to_string(), returned: Ok(ret_ids) });
-        if found.is_empty() {
+        if found.is_empty() && !g.empty_ok {
             Err(Ctap2Error::NoCredentials.into())
         } else {
             Ok(found)
